@@ -638,6 +638,18 @@ def sqrt_mono_axioms():
 
 THEORIES['sqrtmono'] = sqrt_mono_axioms
 
+
+def sqrt_square_axioms():
+    """IEEE binary floating point with correctly rounded * and sqrt: sqrt(fl(x*x)) == x for x >= 0 whenever x*x neither
+    overflows nor falls into the subnormal range (assumption A3, not machine-checked; the overflow side is the guard below,
+    the underflow side -- |x| < 2**-511 -- is treated as mathematical)."""
+    x = z3.Const('sq_x', Val)
+    return [z3.ForAll([x], z3.Implies(z3.And(z3.Not(vlt(x, vzero)), vlt(vmul(x, x), vinf)), vsqrt(vmul(x, x)) == x),
+                      patterns=[vsqrt(vmul(x, x))])]
+
+
+THEORIES['sqrtsq'] = sqrt_square_axioms
+
 induction_lemma(
     'RowMinGreatestSqrt', _ctxc + [_row, _lo, _v], _hi, _lo + 1,
     hyp=lambda k: z3.ForAll([_j], z3.Implies(z3.And(_lo <= _j, _j < k), _nlt(vsqrt(Wf(*_ctxc, _row, _j)), _v)),
